@@ -179,11 +179,7 @@ fn announce_step(with_suffix: bool) {
     let state = any_state(0);
     state.poke().path_trace_ds.enable = false;
     let remote = any_port_identity();
-    let (mut port, cfg, code) = if with_suffix {
-        // forwarding does not depend on the port state: keep it concrete (Listening, default config) so the symbolic TLV suffix stays affordable
-        let cfg = PortCfg::plain();
-        (mk_running(&state, cfg, RecClock::quiet(), any_filter_cfg(), PortState::Listening), cfg, ST_LISTENING)
-    } else { setup(&state, remote) };
+    let (mut port, cfg, code) = setup(&state, remote);
     if code == ST_SLAVE {
         // Inv: a slave's parent data set names its remote master
         state.poke().parent_ds.parent_port_identity = remote;
@@ -191,9 +187,10 @@ fn announce_step(with_suffix: bool) {
     let a = any_announce();
     kani::assume(a.steps_removed < 65535);
     let src = a.header.source_port_identity;
-    let sbuf: [u8; 12] = kani::any();
-    let slen: usize = if with_suffix { kani::any() } else { 0 };
-    kani::assume(slen <= 12);
+    // concrete suffix: one propagating TLV (ORGANIZATION_EXTENSION_PROPAGATE, 2 octets) and one that is not (MANAGEMENT, 2 octets);
+    // arbitrary suffixes are decided at iterator level by c15_receive_forwarding
+    let sbuf: [u8; 12] = [0x40, 0x00, 0x00, 0x02, 0xaa, 0xbb, 0x00, 0x01, 0x00, 0x02, 0xcc, 0xdd];
+    let slen: usize = if with_suffix { 12 } else { 0 };
     let suffix = match TlvSet::deserialize(&sbuf[..slen]) {
         Ok(s) => s,
         Err(_) => { kani::assume(false); TlvSet::default() }
@@ -273,39 +270,223 @@ fn announce_step(with_suffix: bool) {
 }
 
 // @harness c11_handle_announce
-// @props C11 C12 C07 C03 C17
+// @props C11 C15 C12 C07 C03 C17
 // @tier quick
 // @variant lists2
 // @stubbing yes
 // @timeout 2400
 // @mem 16
-// @functions Port::handle_announce, Bmca::register_announce_message, ForeignMasterList::register_announce_message, ForeignMasterList::is_announce_message_qualified, AnnounceMessage::time_properties
-// @bounds one step from an arbitrary port state with an empty foreign-master list; fully symbolic Announce (stepsRemoved <= 65534, see D3 for 65535) from the parent or anyone else, no TLV suffix; path trace off (the path-trace receive path is c15_path_trace_*)
+// @functions Port::handle_announce, Bmca::register_announce_message, ForeignMasterList::register_announce_message, ForeignMasterList::is_announce_message_qualified, AnnounceMessage::time_properties, PortActionIterator::with_forward_tlvs
+// @bounds one step from an arbitrary port state with an empty foreign-master list; fully symbolic Announce (stepsRemoved <= 65534, see D3 for 65535) from the parent or anyone else, with a concrete suffix of one propagating and one non-propagating TLV; path trace off (the path-trace receive path is c15_path_trace_*)
 // @assume Interval::as_core_duration / Duration::mul_f64 / core::mem::swap stubs as in c12_announce_receipt_timer
 #[kani::proof]
 #[kani::unwind(14)]
 #[kani::stub(crate::time::Interval::as_core_duration, crate::verif_root::stubs::as_core_duration_int)]
 #[kani::stub(core::time::Duration::mul_f64, crate::verif_root::stubs::mul_f64_contract)]
 #[kani::stub(core::mem::swap, super::common::swap_stub)]
-fn c11_handle_announce() { announce_step(false) }
+fn c11_handle_announce() { announce_step(true) }
 
 // @harness c15_receive_forwarding
-// @props C15 C03 C17
+// @props C15 C03
 // @tier quick
 // @variant lists2
+// @timeout 1200
+// @functions PortActionIterator::next, PortActionIterator::with_forward_tlvs, TlvSetIterator::next, Tlv::deserialize, TlvType::from_primitive, TlvType::announce_propagate, TlvSet::deserialize
+// @bounds the action iterator handle_announce returns for an accepted Announce, over any well-formed TLV suffix of <= 12 octets (<= 3 TLVs, all 2^16 types, any even lengths) and any sender identity
+// @note handle_announce attaching exactly message.suffix.tlv() with the sender's identity (and only for accepted Announces) is decided by c11_handle_announce on a concrete suffix
+#[kani::proof]
+#[kani::unwind(14)]
+fn c15_receive_forwarding() {
+    let sbuf: [u8; 12] = kani::any();
+    let slen: usize = kani::any();
+    kani::assume(slen <= 12);
+    let sender = any_port_identity();
+    let suffix = match TlvSet::deserialize(&sbuf[..slen]) {
+        Ok(s) => s,
+        Err(_) => { kani::assume(false); TlvSet::default() }
+    };
+    let (wf, ntlv, _) = ref_tlv_walk(&sbuf[..slen], 3);
+    assert!(wf, "TlvSet::deserialize accepted a malformed suffix");
+    let it: PortActionIterator<'_> = actions![PortAction::ResetAnnounceReceiptTimer { duration: core::time::Duration::from_secs(3) }];
+    let r = drain_announce(it.with_forward_tlvs(suffix.tlv(), sender), sender);
+    assert!(r.reset_receipt == 1 && r.other == 0);
+    let mut want = 0u8;
+    let mut k = 0;
+    while k < 3 {
+        if k < ntlv {
+            if let Some((ty, _off, l)) = ref_tlv_at(&sbuf[..slen], k) {
+                if ref_tlv_propagates(ty) {
+                    assert!((want as usize) < 3 && r.fwd_type[want as usize] == ty && r.fwd_len[want as usize] == l, "C15: forwarded TLV differs from the received one / wrong order");
+                    want += 1;
+                }
+            }
+        }
+        k += 1;
+    }
+    assert!(r.fwd == want && r.fwd_sender_ok, "C15: set of TLVs offered for forwarding != propagating TLVs of the Announce");
+    kani::cover!(want == 2, "two TLVs forwarded");
+    kani::cover!(want == 0 && ntlv == 2, "no TLV forwarded of two");
+    kani::cover!(want == 1 && ntlv == 3, "one of three forwarded");
+}
+
+fn before_default(s: &Snapshot) -> crate::datastructures::datasets::InternalDefaultDS {
+    snapshot_default(s)
+}
+
+// ------------------------------------------------------------------------------------------------
+// Path trace on the receive side (C15) and the stepsRemoved + 1 corner (C11 / C03)
+// ------------------------------------------------------------------------------------------------
+
+fn path_trace_case(entries: usize, own_at: Option<usize>) {
+    // slave port with path trace enabled, Announce from the parent carrying a PATH_TRACE TLV of `entries`
+    // symbolic identities (optionally the own identity at index own_at)
+    let state = any_state(1);
+    state.poke().path_trace_ds.enable = true;
+    let remote = any_port_identity();
+    kani::assume(remote.clock_identity != OWN_CLOCK);
+    state.poke().parent_ds.parent_port_identity = remote;
+    let cfg = PortCfg::plain();
+    let mut port = mk_running(&state, cfg, RecClock::quiet(), any_filter_cfg(), mk_slave_state(remote));
+    let mut a = any_announce();
+    a.header.source_port_identity = remote;
+    kani::assume(a.steps_removed < 255);
+    let mut sbuf = [0u8; 4 + 8 * 18];
+    let ids: [u8; 8 * 18] = kani::any();
+    sbuf[1] = 0x08; // PATH_TRACE
+    sbuf[2] = ((8 * entries) >> 8) as u8;
+    sbuf[3] = (8 * entries) as u8;
+    let mut i = 0;
+    while i < 18 {
+        let mut j = 0;
+        while j < 8 {
+            if i < entries {
+                let own_here = own_at == Some(i);
+                sbuf[4 + 8 * i + j] = if own_here { OWN_CLOCK.0[j] } else { ids[8 * i + j] };
+            }
+            j += 1;
+        }
+        // no other entry equals the own identity
+        if i < entries && own_at != Some(i) {
+            kani::assume(ids[8 * i] != OWN_CLOCK.0[0]);
+        }
+        i += 1;
+    }
+    let suffix = TlvSet::deserialize(&sbuf[..4 + 8 * entries]).unwrap();
+    let pre_parent = state.peek().parent_ds.clone();
+    let pre_current = state.peek().current_ds;
+    let pre_tp = state.peek().time_properties_ds;
+    let pre_path0 = state.peek().path_trace_ds.list[0];
+    let msg = announce_message(&a, suffix);
+    let r = drain_announce(port.handle_announce(&msg, a), remote);
+    let st = state.peek();
+    let cap = MAX_DATA_LEN / 8;
+    if own_at.is_some() {
+        // C15: an Announce from the parent whose path already contains our identity is discarded
+        assert!(r.n == 0, "C15: looped Announce produced actions");
+        assert!(crate::bmc::bmca::verif_bmca::fm_len(&port.bmca) == 0, "C15: looped Announce was registered");
+        assert!(st.path_trace_ds.list.len() == 1 && st.path_trace_ds.list[0] == pre_path0, "C15: looped path was stored");
+        assert!(st.parent_ds == pre_parent && st.current_ds == pre_current && st.time_properties_ds == pre_tp,
+            "C15: a discarded (looped) Announce changed the data sets");
+    } else if entries <= cap {
+        assert!(r.reset_receipt == 1, "accepted Announce");
+        assert!(st.path_trace_ds.list.len() == entries, "C15: stored path != received path");
+        if entries > 0 {
+            assert!(st.path_trace_ds.list[0].0[1] == ids[1] && st.path_trace_ds.list[entries - 1].0[7] == ids[8 * (entries - 1) + 7]);
+        }
+    } else {
+        // longer than the list can hold: must not panic (what is stored is not prescribed)
+        assert!(st.path_trace_ds.list.len() <= cap);
+    }
+    assert!(port.instance_state.is_free());
+    kani::cover!(true, "case reached its end");
+    core::mem::forget(port);
+}
+
+// @harness c15_path_trace_stored
+// @props C15 C03
+// @tier quick
+// @variant dl128_lists2
 // @stubbing yes
 // @timeout 2400
 // @mem 16
-// @functions Port::handle_announce, PortActionIterator::next, PortActionIterator::with_forward_tlvs, TlvSetIterator::next, TlvType::announce_propagate, TlvSet::deserialize
-// @bounds listening port (forwarding is state independent), fully symbolic Announce from any sender; TLV suffix = any well-formed TLV set of <= 12 octets (<= 2 TLVs + one empty, all 2^16 types)
+// @functions Port::handle_announce (path trace block), TlvSetIterator::next, ArrayVec::from_iter
+// @bounds slave port, path trace on, Announce from the parent with a PATH_TRACE TLV of 3 symbolic identities none of which is the own identity
+// @assume MAX_DATA_LEN scaled to 128 (path capacity 16); stubs as in c11_handle_announce
+#[kani::proof]
+#[kani::unwind(20)]
+#[kani::stub(crate::time::Interval::as_core_duration, crate::verif_root::stubs::as_core_duration_int)]
+#[kani::stub(core::time::Duration::mul_f64, crate::verif_root::stubs::mul_f64_contract)]
+#[kani::stub(core::mem::swap, super::common::swap_stub)]
+fn c15_path_trace_stored() { path_trace_case(3, None) }
+
+// @harness c15_path_trace_loop
+// @props C15 C03
+// @tier quick
+// @variant dl128_lists2
+// @stubbing yes
+// @timeout 2400
+// @mem 16
+// @functions Port::handle_announce (path trace block)
+// @bounds as c15_path_trace_stored with the own identity in second position of a 3-entry path
+// @assume as c15_path_trace_stored
+#[kani::proof]
+#[kani::unwind(20)]
+#[kani::stub(crate::time::Interval::as_core_duration, crate::verif_root::stubs::as_core_duration_int)]
+#[kani::stub(core::time::Duration::mul_f64, crate::verif_root::stubs::mul_f64_contract)]
+#[kani::stub(core::mem::swap, super::common::swap_stub)]
+fn c15_path_trace_loop() { path_trace_case(3, Some(1)) }
+
+// @harness c15_path_trace_over_capacity
+// @props C15 C03
+// @tier quick
+// @variant dl128_lists2
+// @stubbing yes
+// @timeout 3000
+// @mem 20
+// @functions Port::handle_announce (path trace block), ArrayVec::from_iter
+// @bounds as c15_path_trace_stored with capacity + 1 = 17 entries (129 at the real MAX_DATA_LEN; the UDP general socket buffer of the daemon is 2048 octets)
+// @assume as c15_path_trace_stored
+#[kani::proof]
+#[kani::unwind(20)]
+#[kani::stub(crate::time::Interval::as_core_duration, crate::verif_root::stubs::as_core_duration_int)]
+#[kani::stub(core::time::Duration::mul_f64, crate::verif_root::stubs::mul_f64_contract)]
+#[kani::stub(core::mem::swap, super::common::swap_stub)]
+fn c15_path_trace_over_capacity() { path_trace_case(17, None) }
+
+// @harness c11_parent_announce_steps_65535
+// @props C11 C03
+// @tier quick
+// @variant lists2
+// @stubbing yes
+// @timeout 1500
+// @mem 12
+// @functions Port::handle_announce (S1 data set update)
+// @bounds slave port, Announce from the parent with stepsRemoved = 65535 (all other fields symbolic)
 // @assume stubs as in c11_handle_announce
 #[kani::proof]
 #[kani::unwind(14)]
 #[kani::stub(crate::time::Interval::as_core_duration, crate::verif_root::stubs::as_core_duration_int)]
 #[kani::stub(core::time::Duration::mul_f64, crate::verif_root::stubs::mul_f64_contract)]
 #[kani::stub(core::mem::swap, super::common::swap_stub)]
-fn c15_receive_forwarding() { announce_step(true) }
-
-fn before_default(s: &Snapshot) -> crate::datastructures::datasets::InternalDefaultDS {
-    snapshot_default(s)
+fn c11_parent_announce_steps_65535() {
+    let state = any_state(0);
+    state.poke().path_trace_ds.enable = false;
+    let remote = any_port_identity();
+    kani::assume(remote.clock_identity != OWN_CLOCK);
+    state.poke().parent_ds.parent_port_identity = remote;
+    let cfg = PortCfg::plain();
+    let mut port = mk_running(&state, cfg, RecClock::quiet(), any_filter_cfg(), mk_slave_state(remote));
+    let mut a = any_announce();
+    a.header.source_port_identity = remote;
+    a.steps_removed = 65535;
+    let pre_steps = state.peek().current_ds.steps_removed;
+    let msg = announce_message(&a, TlvSet::default());
+    let r = drain_announce(port.handle_announce(&msg, a), remote);
+    // an Announce that can never qualify (stepsRemoved >= 255) must not turn into stepsRemoved 0 (wrap) in our own Announces
+    let post = state.peek().current_ds.steps_removed;
+    assert!(post == pre_steps || post == 65535, "C11: stepsRemoved wrapped around");
+    assert!(crate::bmc::bmca::verif_bmca::fm_len(&port.bmca) == 0, "unqualified Announce must not be recorded");
+    let _ = r;
+    kani::cover!(true, "handled without panic");
+    core::mem::forget(port);
 }
